@@ -71,7 +71,9 @@ OpArbInt(d, W, tmin, tmax, bytes) ==
       drawn == IntInRange(W, rng[1], rng[2], bytes)
   IN IF drawn.k = "panic" THEN PanicOut
      ELSE LET made == OpCtor(d, drawn.v, <<>>) IN
-          IF IsOk(made) THEN made ELSE PanicOut                \* try_new(..).expect(..)
+          IF IsOk(made) THEN made
+          ELSE IF d.san # <<>> THEN ArbErrOut                  \* with a custom sanitizer: .map_err(|_| IncorrectFormat)? (fix)
+          ELSE PanicOut                                        \* try_new(..).expect(..)
 
 -----------------------------------------------------------------------------
 (* DECLARATIVE                                                             *)
